@@ -6,17 +6,25 @@ use flac_codec::encode::{FlacStreamWriter, Options};
 use serde_json::{Value, json};
 use std::io::{BufRead, Read};
 
-/// BufRead whose fill_buf hands out at most the next scripted chunk
+/// BufRead whose fill_buf hands out at most the next scripted chunk; the refill numbered `fault.0` (counting from 0) answers once
+/// with Interrupted (`fault.1 == false`) or with a transient I/O error (`true`) before it delivers
 pub struct ScriptedBuf {
     data: Vec<u8>,
     pos: usize,
     chunks: Vec<usize>,
     k: usize,
     avail: usize,
+    fault: Option<(usize, bool)>,
+    refills: usize,
+    pub delivered: usize,
 }
 impl ScriptedBuf {
     pub fn new(data: Vec<u8>, chunks: Vec<usize>) -> Self {
-        ScriptedBuf { data, pos: 0, chunks, k: 0, avail: 0 }
+        ScriptedBuf { data, pos: 0, chunks, k: 0, avail: 0, fault: None, refills: 0, delivered: 0 }
+    }
+    pub fn with_fault(mut self, at: usize, io_error: bool) -> Self {
+        self.fault = Some((at, io_error));
+        self
     }
 }
 impl Read for ScriptedBuf {
@@ -31,6 +39,16 @@ impl Read for ScriptedBuf {
 impl BufRead for ScriptedBuf {
     fn fill_buf(&mut self) -> std::io::Result<&[u8]> {
         if self.avail == 0 {
+            if let Some((at, io_error)) = self.fault {
+                if at == self.refills && self.pos < self.data.len() {
+                    self.fault = None;
+                    self.delivered += 1;
+                    return Err(if io_error { std::io::Error::other("injected source error") } else { std::io::Error::from(std::io::ErrorKind::Interrupted) });
+                }
+            }
+            if self.pos < self.data.len() {
+                self.refills += 1;
+            }
             let c = if self.chunks.is_empty() { usize::MAX } else { self.chunks[self.k % self.chunks.len()].max(1) };
             self.k += 1;
             self.avail = c.min(self.data.len() - self.pos);
@@ -178,9 +196,27 @@ pub fn run(job: &Value, t: &mut Trace) -> usize {
             data.extend_from_slice(&f.bytes);
         }
         render(&garbage[frames.len()], &mut rng, &mut data);
+        // "fault_sweep": every chunking is also run once per refill of the fault-free run and per kind of source error (Interrupted, transient)
+        let sweep = a["fault_sweep"].as_bool().unwrap_or(false);
+        let mut plans: Vec<(Vec<usize>, Option<(usize, bool)>)> = vec![];
         for chunks in a["chunkings"].as_array().unwrap() {
             let chunks: Vec<usize> = chunks.as_array().unwrap().iter().map(|x| x.as_u64().unwrap() as usize).collect();
-            let mut rd = FlacStreamReader::new(ScriptedBuf::new(data.clone(), chunks.clone()));
+            plans.push((chunks.clone(), None));
+            if sweep {
+                // number of refills of the fault-free run
+                let mut probe = ScriptedBuf::new(data.clone(), chunks.clone());
+                let mut sink = vec![];
+                let _ = probe.read_to_end(&mut sink);
+                for at in 0..probe.refills {
+                    plans.push((chunks.clone(), Some((at, false))));
+                    plans.push((chunks.clone(), Some((at, true))));
+                }
+            }
+        }
+        for (chunks, fault) in plans {
+            let src = ScriptedBuf::new(data.clone(), chunks.clone());
+            let mut rd = FlacStreamReader::new(match fault { Some((at, io)) => src.with_fault(at, io), None => src });
+            let mut ioerrs_reported = 0i64;
             let mut returned: Vec<i64> = vec![];
             let mut errors: Vec<String> = vec![];
             let mut panicked = false;
@@ -204,6 +240,9 @@ pub fn run(job: &Value, t: &mut Trace) -> usize {
                     }
                     Ok(Err(e)) => {
                         let eof = e.contains("eof looking for frame sync");
+                        if e.contains("injected source error") {
+                            ioerrs_reported += 1;
+                        }
                         errors.push(e);
                         if eof {
                             break;
@@ -218,6 +257,8 @@ pub fn run(job: &Value, t: &mut Trace) -> usize {
             }
             t.emit(json!({"ev": "arr", "id": a["id"], "n": frames.len() as i64, "garbage": a["garbage"], "chunks": chunks.iter().map(|c| *c as i64).collect::<Vec<_>>(),
                 "returned": returned, "errors": errors.len() as i64, "panicked": panicked,
+                "fault": match fault { Some((at, io)) => json!({"at": at as i64, "io": io}), None => json!({"at": -1, "io": false}) },
+                "ioerrs_reported": ioerrs_reported, "min_frame_bytes": frames.iter().map(|f| f.bytes.len()).min().unwrap_or(0) as i64,
                 "last_error": errors.last().cloned().unwrap_or_default(), "pred": a["pred"]}));
         }
     }
